@@ -98,6 +98,8 @@ def sources(tier, seed, ctx):
     for j, s in enumerate(srcs):
         if j % 4 == 2 and s['r'] >= 1 and not s['time_limit']:
             s['again'] = 1 + j % 5
+        if j % 4 == 3 and s['r'] >= 1:
+            s['rejected_fix'] = True
     ctx['gen_note'] = f'{len(srcs)} synthesis calls (a third of them after another finder ran in the same process)'
     return srcs
 
@@ -153,6 +155,13 @@ def _run(src):
             f.fix_gate(fx['g'], **kw)
         for fb in src['forbid']:
             f.forbid_wire(fb['from'], fb['to'])
+        if src.get('rejected_fix') and src['r'] >= 1:
+            # a constraint the finder REFUSES (a predecessor that is not an earlier node) is not imposed
+            g_ = src['n'] + src['r'] - 1
+            try:
+                f.fix_gate(g_, first_predecessor=g_, gate_type=getattr(G, src['basis'][0]))
+            except Exception:
+                pass
         c = f.find_circuit(time_limit=src['time_limit'] or None)
         case['result'] = 'circuit'
         case['c'] = project(c)
